@@ -36,6 +36,13 @@ ASSUMPTIONS = [
     "the reference exchange (Model/Exchange.lean, harness/c17_ref.py) is SPEC written for this property after the FIX 4.4 "
     "Vol.4 order state change matrices; both directions are FIFO, the client swallows an exception raised while "
     "processing a report (the report is consumed)",
+    "application hooks (set_instrument, set_account, set_price_qty, current_datetime overridden in a subclass) return "
+    "normally and do not call back in every THEOREM; hooks that raise (Exception / asyncio.CancelledError) at any position, "
+    "call clord_next() or query the gates are covered by the correspondence (model branch newReqH / cancelReqH / replaceReqH "
+    "mirrors the code as it is) and by the oracle clauses that still hold then (reports keep being absorbed, convergence at "
+    "rest, queries are pure, gates = transition function). OBSERVATION outside the property's quantifier: the builders are not "
+    "exception safe w.r.t. a raising hook (clord_id / orig_clord_id / counter already advanced, so later requests fail the "
+    "assertion); notes/proposed_fix_exception_safe_builders.diff (14+/10-, suite green) would make them so – not applied by decision",
     "str(int) of the ClOrdID counter is plain decimal (CPython's 4300-digit limit is out of reach)",
     "MAGNITUDE: the single 1/8 grid is kept up to its limit (grid integers below 2^49, values below 2^46 ≈ 7e13, where "
     "one tick is a relative change of 2e-15): the model's integers are unbounded, the generators include prices 2.5e10 .. 7e13 "
@@ -114,7 +121,10 @@ def exch_tok(ex: R.RefExchange) -> str:
 def out_tok(res: list) -> str:
     k = res[0]
     if k == "built":
-        return "built %s %s" % (C.hx(res[1]), ",".join("%d=%s" % (t, u(v)) for t, v in res[2]))
+        seen = ""
+        if len(res) > 3:  # can_cancel / can_replace as seen from inside a hook
+            seen = " seen=%s,%s" % tuple(("1" if x else "0") if isinstance(x, bool) else str(x) for x in res[3][1:])
+        return "built %s %s%s" % (C.hx(res[1]), ",".join("%d=%s" % (t, u(v)) for t, v in res[2]), seen)
     if k == "raise":
         return "raise " + res[1]
     if k == "ret":
@@ -137,6 +147,10 @@ def action_line(a: list) -> str:
         return "oo.feed " + report_tok(r).replace(":", " ")
     if k == "cReplace":
         return "oo.act cReplace %s %s" % (oint(a[1]), oint(a[2]))
+    if k in ("hNew", "hCancel"):
+        return "oo.actf %s c%s" % (a[1], k[1:])
+    if k == "hReplace":
+        return "oo.actf %s cReplace %s %s" % (a[3], oint(a[1]), oint(a[2]))
     return "oo.act " + " ".join(str(x) for x in a)
 
 
@@ -154,7 +168,8 @@ def init_line(case: dict) -> str:
 def make_link(case):
     t, sd, ot, ac = case.get("cfg", DEFAULT_CFG)
     return R.Link(case["root"], case["price"], case["qty"], t, sd, ot, ac, ptype=case.get("ptype", "float"),
-                  qtype=case.get("qtype", "float"), argint=case.get("argint", False), enums=case.get("enums", False))
+                  qtype=case.get("qtype", "float"), argint=case.get("argint", False), enums=case.get("enums", False),
+                  subclass=case.get("subclass", False))
 
 
 def new_link(case):
@@ -208,7 +223,7 @@ def rand_config(rng):
     """CONFIGURATION: Python types of price / qty / replace arguments, enum members or plain strings for side and
     order type, instrument / account text"""
     return {"ptype": rng.choice(["float", "int"]), "qtype": rng.choice(["float", "int"]), "argint": rng.random() < 0.5,
-            "enums": rng.random() < 0.5,
+            "enums": rng.random() < 0.5, "subclass": rng.random() < 0.5,
             "cfg": [rng.choice(TICKERS), rng.choice(SIDES), rng.choice(ORD_TYPES), rng.choice(ACCOUNTS)]}
 
 
@@ -256,12 +271,55 @@ def rand_action(rng, L, first=False):
     if ob["status"] == "Z":
         enabled += [["cNew"]] * 3
     if enabled and rng.random() < 0.85:
-        return rng.choice(enabled)
+        a = rng.choice(enabled)
+        if a[0] in ("cNew", "cCancel", "cReplace") and isinstance(L.order, R.hooked_class()) and rng.random() < 0.3:
+            a = hooked(rng, a)
+        return a
     # anything, enabled or not
     return rng.choice([
         ["cNew"], ["cCancel"], rand_replace(rng, L), ["cRecv"], ["xRecv", rng.choice(DECISIONS)],
         ["xDecide", rng.choice(DECISIONS)], ["xAck"], ["xRejNew"],
         ["xFill", rng.choice([-1, 0, 1, 8, 1000]), 80], ["xExpire"], ["xSuspend"], ["xResume"]])
+
+
+HOOK_MODES = ["raises", "raises", "bumps", "reenters"]
+
+
+def hooked(rng, a, mode=None, k=None, exc=None):
+    """the builder action `a` with a misbehaving application hook: at the k-th hook call (set_instrument, set_account,
+    current_datetime, set_price_qty – whichever the builder calls k-th) the override raises an Exception / a
+    BaseException (asyncio.CancelledError), or calls clord_next(), or queries can_cancel() / can_replace()"""
+    mode = mode or rng.choice(HOOK_MODES)
+    k = rng.randrange(4) if k is None else k
+    exc = exc or rng.choice(["Exception", "Cancelled"])
+    return ["h" + a[0][1:]] + list(a[1:]) + [mode, k, exc]
+
+
+def hook_cases(rng, tier):
+    """COLLABORATOR FAULTS: every builder x every hook position x every behaviour, in a live / partially filled /
+    suspended / just created order; afterwards the exchange goes on by itself (fill to completion, expiry, suspend,
+    resume) and the client tries again with healthy hooks"""
+    out = []
+    pre = {"created": [], "new": [["cNew"], ["xRecv", "accept"], ["cRecv"]],
+           "partial": [["cNew"], ["xRecv", "accept"], ["cRecv"], ["xFill", 8, 80], ["cRecv"]],
+           "suspended": [["cNew"], ["xRecv", "accept"], ["cRecv"], ["xSuspend"], ["cRecv"]]}
+    post = [[["xFill", 40, 80], ["cRecv"]], [["xFill", 8, 80], ["cRecv"], ["cCancel"], ["xRecv", "accept"], ["cRecv"]],
+            [["xExpire"], ["cRecv"]], [["cReplace", 88, None], ["cCancel"], ["xFill", 1000, 80], ["xFill", 32, 80], ["cRecv"], ["cRecv"]],
+            [["xResume"], ["cRecv"], ["xFill", 1000, 80], ["xFill", 32, 80], ["cRecv"], ["cRecv"]]]
+    for pname, p in pre.items():
+        builders = [["cNew"]] if pname == "created" else [["cCancel"], ["cReplace", 88, None], ["cReplace", None, 48]]
+        for b in builders:
+            for mode in ("raises", "bumps", "reenters"):
+                for k in range(R.HOOKS_OF[b[0]]):
+                    for exc in (("Exception", "Cancelled") if mode == "raises" else ("Exception",)):
+                        tail = rng.choice(post) if pname != "created" else [["cNew"], ["xRecv", "accept"], ["cRecv"], ["xFill", 40, 80], ["cRecv"]]
+                        if pname != "created" and mode != "raises":
+                            tail = [["xRecv", rng.choice(DECISIONS)], ["cRecv"], ["xDecide", "accept"], ["cRecv"]] + tail
+                        c = {"root": rng.choice(["ord", "DESK7-ORD"]), "price": 80, "qty": 40, "style": 0, "subclass": True,
+                             "name": "hook/%s/%s/%s/%d" % (pname, b[0], mode, k),
+                             "actions": p + [hooked(rng, b, mode, k, exc)] + tail}
+                        out.append(c)
+    return out
 
 
 def rand_replace(rng, L):
@@ -533,7 +591,10 @@ def correspondence(ctx):
     evals += compare_cases(drv, late, dis, stats, "late-duplicate-reports")
     bursts = burst_cases(ctx.rng, ctx.n(30, 300))
     evals += compare_cases(drv, bursts, dis, stats, "bursts")
-    for c in chains + late + bursts:
+    hooks = hook_cases(ctx.rng, ctx.tier)
+    evals += compare_cases(drv, hooks, dis, stats, "misbehaving-hooks")
+    hook_steps = sum(1 for c in closed + hooks for a in c["actions"] if a[0][0] == "h")
+    for c in chains + late + bursts + hooks:
         distinct.add(json.dumps(c["actions"]))
     big = sum(1 for c in closed if abs(c["price"]) > 10**9 or abs(c["qty"]) > 10**9)
 
@@ -597,6 +658,7 @@ def correspondence(ctx):
                          "request_chains": {"cases": len(chains), "longest_counter": max(sum(1 for a in c["actions"] if a[0] in ("cCancel", "cReplace")) for c in chains) + 1,
                                             "reject_positions": "2..13 single/double, 98..101" + (", 999..1001" if ctx.tier == "thorough" else "")},
                          "late_duplicate_cases": len(late), "burst_cases": len(bursts),
+                         "hook_cases": len(hooks), "hook_fault_steps": hook_steps,
                          "config_dimensions": {"tickers": TICKERS, "sides": SIDES, "ord_types": ORD_TYPES, "accounts": ACCOUNTS,
                                                "types": "int/float price, qty, replace args; enum members or str for side / ord_type"}},
         "branches": stats["outcomes"],
@@ -686,6 +748,7 @@ class Monitor:
         self.steps = 0
         self.quiescent = 0
         self.open_system = any(a[0] == "feed" for a in case["actions"])
+        self.hook_fault = False   # an application hook raised inside a builder: application code broke its side
 
     def add(self, sig, what, expected=None, observed=None):
         if not any(f["signature"] == sig for f in self.fail):
@@ -708,6 +771,25 @@ class Monitor:
         self.steps += 1
         o = L.order
         ob = R.order_obs(o)
+        a0 = a
+        if a[0] in ("hNew", "hCancel", "hReplace"):   # builder with a misbehaving hook: judged like the plain builder
+            if res[0] == "raise" and res[1] == "Hook":
+                self.hook_fault = True
+            a = ["c" + a[0][1:]] + list(a[1:-3])
+        # a query never changes the order: observing twice gives the same picture
+        ob2 = R.order_obs(o)
+        if ob2 != ob:
+            self.add("C17-query-changes-state", "can_cancel() / can_replace() / is_finished() changed the order", expected=ob, observed=ob2)
+        # the gates agree with the transition function for the order's status (also when asked from inside a hook)
+        views = [(ob["status"], ob["can_cancel"], ob["can_replace"], "")]
+        if res[0] == "built" and len(res) > 3:
+            views.append((res[3][0], res[3][1], res[3][2], "-in-hook"))
+        for st, cc, cr, where in views:
+            want = gates_of(st)
+            if want is not None and (cc, cr) != want:
+                self.add("C17-gate-vs-transition-function%s:%s" % (where, st),
+                         "can_cancel() / can_replace() differ from what change_status() allows for the order's status",
+                         expected=list(want), observed=[cc, cr])
         # the two races the known findings are about: expiry of a suspended order, replace accepted while suspended
         if res[0] == "emit" and getattr(self, "prev_base", None) == "9":
             for r in res[1]:
@@ -739,9 +821,10 @@ class Monitor:
             self.add("C17-finished-order-revived", "a finished order changed status / stopped being finished / accepts requests again",
                      expected=before["status"], observed=[ob["status"], ob["fin"], ob["can_cancel"], ob["can_replace"]])
         # can_* true => the builder succeeds
-        if a[0] == "cCancel" and before["can_cancel"] is True and res[0] != "built":
+        hf = self.hook_fault
+        if a[0] == "cCancel" and before["can_cancel"] is True and res[0] != "built" and not hf:
             self.add("C17-can-cancel-but-raises:" + str(res[1]), "can_cancel() was true but cancel_req() raised", observed=res)
-        if a[0] == "cReplace" and before["can_replace"] is True and res[0] != "built":
+        if a[0] == "cReplace" and before["can_replace"] is True and res[0] != "built" and not hf:
             p, q = a[1], a[2]
             changes = (p is not None and p != before["price"]) or (q is not None and q != before["qty"] and q != 0)
             if changes or res[1] != "FIXError":
@@ -752,6 +835,8 @@ class Monitor:
             probe_qty = 16
         for name, f in (("can_cancel", lambda x: x.cancel_req()), ("can_replace", lambda x: x.replace_req(math.nan, R.g2f(probe_qty)))):
             if ob[name] is True:
+                if hf:
+                    continue
                 o2 = copy.deepcopy(o)
                 try:
                     f(o2)
@@ -770,7 +855,9 @@ class Monitor:
             if ob["cnt"] <= self.last_cnt:
                 self.add("C17-counter-not-increasing", "the ClOrdID counter did not increase", observed=ob["cnt"])
             self.last_cnt = ob["cnt"]
-            if not ends_in_chain_suffix(self.root) and cl != "%s--%d" % (self.root, ob["cnt"]):
+            prev_cnt = before["cnt"] if before else 0
+            ok_ids = ["%s--%d" % (self.root, k) for k in range(prev_cnt + 1, ob["cnt"] + 1)]  # a hook may call clord_next() itself
+            if not ends_in_chain_suffix(self.root) and cl not in ok_ids:
                 sig = "C17-multiline-root" if "\n" in self.root else "C17-clordid-not-root-k"
                 self.add(sig, "built ClOrdID is not <root>--<counter>", expected="%s--%d" % (self.root, ob["cnt"]), observed=cl)
             if res[1] in ("F", "G") and not self.open_system:
@@ -786,7 +873,7 @@ class Monitor:
             self.add("C17-two-requests-outstanding", "more than one cancel/replace request outstanding", observed=outstanding)
         if ob["status"] in ("6", "E") and outstanding == 0 and not self.susp_replace:
             self.add("C17-pending-without-request", "order says a request is pending but none is outstanding", observed=ob["status"])
-        if (ob["orig"] is not None) != (ob["status"] in ("6", "E")) and ob["status"] != "4" and not self.susp_replace:
+        if (ob["orig"] is not None) != (ob["status"] in ("6", "E")) and ob["status"] != "4" and not self.susp_replace and not hf:
             self.add("C17-orig-clordid-vs-pending", "orig_clord_id set <=> a request is pending (or the order was canceled) fails",
                      observed=[ob["orig"], ob["status"]])
         if L.quiescent() and L.ex.known:
@@ -819,6 +906,27 @@ class Monitor:
             sig = "C17-diverged:" + ",".join(names) + ":%s/%s" % (ob["status"], ex.reported())
         self.add(sig, "quiescent (both queues empty) but the order differs from the exchange", expected=exch_tok(ex),
                  observed=order_tok(ob))
+
+
+_GATES = {}
+
+
+def gates_of(status: str):
+    """(can_cancel, can_replace) as the transition function itself answers for this status value"""
+    if status not in _GATES:
+        from asyncfix import FMsg
+        from asyncfix.protocol.common import FOrdStatus
+        from asyncfix.protocol.order_single import FIXNewOrderSingle
+
+        try:
+            st = FOrdStatus(status)
+        except ValueError:
+            _GATES[status] = None
+        else:
+            cs = FIXNewOrderSingle.change_status
+            _GATES[status] = (cs(st, FMsg.ORDERCANCELREQUEST, 0, FOrdStatus.PENDING_CANCEL, raise_on_err=False) is not None,
+                              cs(st, FMsg.ORDERCANCELREPLACEREQUEST, 0, FOrdStatus.PENDING_REPLACE, raise_on_err=False) is not None)
+    return _GATES[status]
 
 
 _SV = []
@@ -905,7 +1013,7 @@ def oracle(ctx, disagreements, broken):
                         run(dict(inp, actions=inp["actions"] + [a, b]))
         elif "clord_root" in inp:
             failures.extend(root_oracle([inp["clord_root"]]))
-    for c in chain_cases(ctx.rng, "quick") + late_cases(ctx.rng, "quick") + burst_cases(ctx.rng, 10):
+    for c in chain_cases(ctx.rng, "quick") + late_cases(ctx.rng, "quick") + burst_cases(ctx.rng, 10) + hook_cases(ctx.rng, "quick"):
         run(c)
     n = ctx.n(1200, 15000) * (3 if broken else 1)
     for _ in range(n):
